@@ -1687,7 +1687,7 @@ func (p *process) run() {
 						return
 					}
 					p.node.unregisterProcess(p, gen.TerminateReasonPanic)
-					p.behavior.ProcessTerminate(gen.TerminateReasonPanic)
+					p.terminatePanicked()
 				}
 			}()
 		}
@@ -1759,6 +1759,23 @@ func (p *process) run() {
 		}
 		goto next
 	}()
+}
+
+// terminatePanicked invokes the termination callback of a process whose
+// ProcessRun panicked. It is called from the deferred recover handler of run(),
+// so a panic in ProcessTerminate must be recovered here: there is nothing
+// above it and it would crash the node.
+func (p *process) terminatePanicked() {
+	if lib.Recover() {
+		defer func() {
+			if rcv := recover(); rcv != nil {
+				pc, fn, line, _ := runtime.Caller(2)
+				p.log.Panic("panic in ProcessTerminate - %s[%s] %#v at %s[%s:%d]",
+					p.pid, p.name, rcv, runtime.FuncForPC(pc).Name(), fn, line)
+			}
+		}()
+	}
+	p.behavior.ProcessTerminate(gen.TerminateReasonPanic)
 }
 
 func (p *process) isStateIRW() bool {
